@@ -113,11 +113,14 @@ static void fixture(const char *p0, const char *p1, const char *enc1)
 /* ------------------------------------------------------------ snapshot */
 static char *SN; static size_t SNlen, SNcap;
 static void sn(const char *fmt, ...)
-{
-  va_list ap; int k;
-  if (SNcap - SNlen < 8192) { SNcap = SNcap * 2 + 65536; SN = realloc(SN, SNcap); }
-  va_start(ap, fmt); k = vsnprintf(SN + SNlen, SNcap - SNlen, fmt, ap); va_end(ap);
-  if (k > 0) SNlen += (size_t)k < SNcap - SNlen ? (size_t)k : SNcap - SNlen - 1;
+{ /* append one formatted line, whatever its length (field codes can be thousands of characters long) */
+  va_list ap, aq; int k;
+  va_start(ap, fmt); va_copy(aq, ap);
+  k = vsnprintf(NULL, 0, fmt, aq); va_end(aq);
+  if (k < 0) { va_end(ap); return; }
+  if (SNcap - SNlen < (size_t)k + 1) { SNcap = (SNcap + (size_t)k + 1) * 2 + 65536; SN = realloc(SN, SNcap); }
+  vsnprintf(SN + SNlen, SNcap - SNlen, fmt, ap); va_end(ap);
+  SNlen += (size_t)k;
 }
 
 static void snap_dir(const char *abs, const char *rel, int perfile)
